@@ -9,6 +9,7 @@ package internal
 // verbs used (%s %d %x, '-', '0', '*'), see engine/intrinsics.go.
 
 import (
+	"fmt"
 	"regexp"
 
 	"github.com/maruel/panicparse/v2/stack"
@@ -298,5 +299,129 @@ func VH_C14_ConsoleKeepsSnapshot(k, rx, mode int) {
 	}
 	if mode != 0 && len(out.parts) != 0 && len(out.parts) != 2*k {
 		vReach("some goroutines hidden, some shown")
+	}
+}
+
+// ---- independent reference for the line formats (not built from the palette's
+// own formatting functions)
+
+// vhRunes counts characters: every byte that is not a UTF-8 continuation byte.
+func vhRunes(s string) int {
+	n := 0
+	for i := 0; i < len(s); i++ {
+		if s[i]&0xC0 != 0x80 {
+			n++
+		}
+	}
+	return n
+}
+
+func vhPad(s string, w int) string {
+	for n := vhRunes(s); n < w; n++ {
+		s += " "
+	}
+	return s
+}
+
+func vhItoa(n int) string { return fmt.Sprintf("%d", n) }
+
+// vhRefWhere: file:line as the path format shows it.
+func vhRefWhere(pf pathFormat, c *stack.Call) string {
+	path := c.SrcName
+	switch {
+	case pf == relPath && c.RelSrcPath != "":
+		path = c.RelSrcPath
+	case pf != basePath && c.LocalSrcPath != "":
+		path = c.LocalSrcPath
+	case pf != basePath:
+		path = c.RemoteSrcPath
+	}
+	return path + ":" + vhItoa(c.Line)
+}
+
+func vhRefCallLine(p *Palette, c *stack.Call, srcLen, pkgLen int, pf pathFormat) string {
+	return "    " + p.Package + vhPad(c.Func.DirName, pkgLen) + " " + p.SrcFile + vhPad(vhRefWhere(pf, c), srcLen) + " " +
+		p.functionColor(c) + c.Func.Name + p.Arguments + "(" + c.Args.String() + ")" + p.EOLReset
+}
+
+// vhRefExtra: sleep, lock and creator annotations of a header; the creator shown
+// is the function containing the go statement, i.e. the first creator frame.
+func vhRefExtra(p *Palette, s *stack.Signature, pf pathFormat) string {
+	extra := ""
+	if t := s.SleepString(); t != "" {
+		extra += " [" + t + "]"
+	}
+	if s.Locked {
+		extra += " [locked]"
+	}
+	if len(s.CreatedBy.Calls) != 0 {
+		c := &s.CreatedBy.Calls[0]
+		extra += p.CreatedBy + " [Created by " + c.Func.DirName + "." + c.Func.Name + " @ " + vhRefWhere(pf, c) + "]"
+	}
+	return extra
+}
+
+// VH_C16_Lines: the header and frame lines themselves against a reference
+// written from the documented layout: four blanks, package column and file:line
+// column padded (in characters) to the global widths, function, arguments;
+// header = count or id, state, sleep range, lock marker, creator (first creator
+// frame), race access. names: 0 = symbolic printable ASCII, 1 = non-ASCII
+// package and file names of different lengths in bytes and characters.
+//
+//verif:prop C16
+//verif:param names 0..1
+//verif:param pfmt 0..2
+//verif:param ncreator 0..2
+//verif:param sleep 0..2
+func VH_C16_Lines(names, pfmt, ncreator, sleep int) {
+	pf := pathFormat(pfmt)
+	b := &stack.Bucket{IDs: []int{1, 2, 3}}
+	b.State = vhText("state", 2)
+	b.Locked = vBool("locked")
+	b.SleepMin, b.SleepMax = []int{0, 5, 2}[sleep], []int{0, 5, 9}[sleep]
+	dirs := []string{vhText("d0", 1), vhText("d1", 3)}
+	srcs := []string{vhText("s0", 4), vhText("s1", 2)}
+	if names == 1 {
+		dirs = []string{"caf\xc3\xa9", "na\xc3\xafvet\xc3\xa9x"}
+		srcs = []string{"r\xc3\xa9sum\xc3\xa9.go", "a.go"}
+	}
+	for i := 0; i < 2; i++ {
+		c := stack.Call{}
+		c.Func.DirName, c.Func.Name, c.SrcName = dirs[i], "f", srcs[i]
+		c.RemoteSrcPath = "/r/" + srcs[i]
+		if i == 1 {
+			c.LocalSrcPath, c.RelSrcPath = "/l/"+srcs[i], srcs[i]
+		}
+		c.Func.IsExported = vBool("exp" + string(rune('0'+i)))
+		c.Location = stack.GoMod
+		c.Line = 7 + i
+		c.Args.Values = []stack.Arg{{Value: 1}}
+		b.Stack.Calls = append(b.Stack.Calls, c)
+	}
+	for i := 0; i < ncreator; i++ {
+		c := stack.Call{}
+		c.Func.DirName, c.Func.Name, c.SrcName = "main", string(rune('g'+i)), string(rune('x'+i))+".go"
+		c.RemoteSrcPath, c.Line = "/r/"+c.SrcName, 20+i
+		b.CreatedBy.Calls = append(b.CreatedBy.Calls, c)
+	}
+	a := &stack.Aggregated{Buckets: []*stack.Bucket{b}}
+	srcLen, pkgLen := calcBucketsLengths(a, pf)
+	vReach("lines rendered")
+	for _, p := range []*Palette{vhPalette, vhPlain} {
+		for i := range b.Stack.Calls {
+			c := &b.Stack.Calls[i]
+			vAssert(p.callLine(c, srcLen, pkgLen, pf) == vhRefCallLine(p, c, srcLen, pkgLen, pf), "frame line: columns padded in characters to the global widths")
+		}
+		for _, multi := range []bool{false, true} {
+			want := p.routineColor(b.First, multi) + vhItoa(len(b.IDs)) + ": " + b.State + vhRefExtra(p, &b.Signature, pf) + p.EOLReset + "\n"
+			vAssert(p.BucketHeader(b, pf, multi) == want, "bucket header: count, state, sleep, lock, creator")
+		}
+		g := &stack.Goroutine{Signature: b.Signature, ID: 42, RaceAddr: 0xc000012339, RaceWrite: vBool("racewrite")}
+		kind := "read"
+		if g.RaceWrite {
+			kind = "write"
+		}
+		want := p.routineColor(false, true) + "42: " + g.State + vhRefExtra(p, &g.Signature, pf) + p.EOLReset + p.Race + " Race " + kind + " @ 0x" + fmt.Sprintf("%08x", g.RaceAddr) + p.EOLReset + "\n"
+		vAssert(p.GoroutineHeader(g, pf, true) == want, "race goroutine header: id, state, creator, access kind and address")
 	}
 }
